@@ -19,6 +19,19 @@ Theorem orphan_check_spec :
     orphan_check true up_fix flags trait_upstream args = true <-> orphan_rule flags trait_upstream args.
 Proof. exact (fun b f u a => Orphan.orphan_check_spec true b f u eq_refl a). Qed.
 
+(* the orphan check as the solvers run it (they give up on a type with more than max_size nodes,
+   and giving up counts as passing): exactly the rule outside the recorded size class ... *)
+Theorem orphan_partial :
+  forall (up_fix : bool) (flags : N -> adt_decl) (trait_upstream : bool) (max_size : nat) (args : list ty),
+    size_known_class max_size args = false ->
+    (orphan_check_sized true up_fix flags trait_upstream max_size args = true <-> orphan_rule flags trait_upstream args).
+Proof. exact (fun b f u m a => Orphan.orphan_partial true b f u eq_refl m a). Qed.
+
+(* ... and inside it an impl the rule rejects passes (all-upstream self type of 11 nodes, SLG) *)
+Theorem orphan_size_refuted :
+  exists x : oinput, size_class_slg_data x = true /\ orphan_check_slg_data x = true /\ orphan_rule_data x = false.
+Proof. exact Orphan.orphan_size_refuted. Qed.
+
 (* builtin types and tuples of fully visible types are fully visible *)
 Theorem fully_visible_spec :
   forall (up_fix : bool) (flags : N -> adt_decl) (trait_upstream : bool) (t : ty),
